@@ -4,3 +4,4 @@ pub mod c16;
 pub mod c17;
 pub mod w4props;
 pub mod w2props;
+pub mod w3props;
